@@ -148,7 +148,13 @@ def run_case(i, tier, seed):
         # --- produce
         def produce():
             if producer == "option" or location == "both":
-                harness.open_tree(url, use_cache=False, create_cache=True, records_per_chunk=rpc_w)
+                t = harness.open_tree(url, use_cache=False, create_cache=True, records_per_chunk=rpc_w)
+                # the tree returned by the open that writes the cache is an ordinary tree as well (values loadable, nothing rewritten)
+                dw = canon.diff(canon.canon(harness.open_tree(url, use_cache=False, records_per_chunk=rpc_w)), canon.canon(t))
+                obs["creating_opens_compared"] = obs.get("creating_opens_compared", 0) + 1
+                if dw:
+                    violations.append({"what": f"the tree returned by open(create_cache=True) differs from a plain uncached open at {len(dw)} leaves, first: {dw[0]}",
+                                       "detail": dict(detail, diff=dw[:5])})
             if producer in ("cli-adjacent", "cli-subprocess") or (location == "both" and producer != "cli-userdir"):
                 run = _cli_subprocess if producer == "cli-subprocess" else _cli_inprocess
                 for n in imgs:
@@ -247,7 +253,7 @@ def run_case(i, tier, seed):
             pols = list(dict.fromkeys(n.split("-")[1] for n in imgs))
             scans = sorted({n.rsplit("-", 1)[-1] for n in imgs if len(n.rsplit("-", 1)[-1]) == 2 and n.rsplit("-", 1)[-1][0] in "BF"}) or [None]
             files2, info2 = gen.rich_product(rng, [seed, i, 2], level=level, n_images=len(pols), pols=pols, scans=scans, max_lines=9, max_pixels=5,
-                                             mode="WBD" if scans != [None] else "FBD")
+                                             mode="WBD" if scans != [None] else "FBD", scene=info["names"]["scene"])
             if sorted(files2) == sorted(files):
                 synth.uninstall(files, root, kind)
                 synth.install(files2, root, kind)
